@@ -4,7 +4,8 @@ TraceLog == ndJsonDeserialize(IOEnv.TRACE_FILE)
 VARIABLE tid
 \* JSON turns the function 1..n -> Modes into an array; rebuild the case
 CaseOf(t) == [style |-> TraceLog[t].case.style, ret |-> TraceLog[t].case.ret, modes |-> TraceLog[t].case.modes, rename |-> TraceLog[t].case.rename]
-Fails(t) == {n \in ClauseNames : ~Holds(n, CaseOf(t), TraceLog[t].obs)}
+Fails(t) == IF "history" \in DOMAIN TraceLog[t] THEN HistoryFails(TraceLog[t].history, TraceLog[t].obs)
+            ELSE {n \in ClauseNames : ~Holds(n, CaseOf(t), TraceLog[t].obs)}
 Init == tid \in 1..Len(TraceLog)
 Next == UNCHANGED tid
 Report == PrintT(<<"V", tid, Fails(tid)>>)
